@@ -19,7 +19,14 @@ class Local(Backend):
 
     @backoff_on_oserror
     def exists(self, name):
-        return os.path.exists(self.path / name)
+        # os.path.exists reports *any* OSError as "missing", which would hide
+        # I/O errors from the retry policy above
+        try:
+            os.stat(self.path / name)
+        except (FileNotFoundError, NotADirectoryError):
+            return False
+
+        return True
 
     def _destination_temp(self, name):
         destination = self.path / name
